@@ -71,6 +71,18 @@ def make_site(rng, i, depth):
     return s
 
 
+_H = "from inline_snapshot import snapshot, outsource\nfrom vp import *\n"
+# layouts of the import block of a real test module; none of them binds HasRepr / external at module level
+REAL_HEADERS = [
+    ("plain", _H),
+    ("docstring_future", '"""module docstring"""\nfrom __future__ import annotations\n' + _H),
+    ("function_local_import", _H + "\n\ndef _lazy_names():\n    from inline_snapshot import HasRepr, external\n\n    return HasRepr, external\n"),
+    ("type_checking_import", "import typing\n" + _H + "\nif typing.TYPE_CHECKING:\n    from inline_snapshot import HasRepr, external\n"),
+    ("class_body_import", _H + "\n\nclass _Names:\n    from inline_snapshot import HasRepr, external\n"),
+    ("comment_and_blank_lines", "# -*- coding: utf-8 -*-\n\n# names used below\n" + _H + "\nX = 1  # from inline_snapshot import HasRepr, external\n"),
+]
+
+
 def run_shard(args):
     tier = args.tier
     ncases = {"quick": 80, "thorough": 1500}[tier]
@@ -110,14 +122,21 @@ def run_shard(args):
     # ---- real sessions: `pytest --inline-snapshot=create` followed by `--inline-snapshot=disable` must be green
     from .. import session
 
-    nreal = {"quick": 1 if args.shard < 4 else 0, "thorough": 8}[tier]
+    nreal = {"quick": 1 if args.shard < len(REAL_HEADERS) else 0, "thorough": 8}[tier]
     for c in range(nreal):
         rng = random.Random(f"{args.seed}/{PROP}/session/{args.shard}/{c}")
         sites = [make_site(rng, i, depth) for i in range(rng.randint(6, 12))]
         for s in sites:
             if s["place"] == "module":
                 s["place"] = "loop"  # an empty module-level snapshot() makes the disabled import fail by design
-        src, order = program.build(sites, style="assert", tests=rng.randint(2, 4), header="from inline_snapshot import snapshot, outsource\nfrom vp import *\n")
+        # values whose generated code needs a name the module does not import yet (HasRepr, external):
+        # the plugin has to add the import wherever the module's own imports are
+        n = len(sites)
+        sites.append({"id": n, "op": "eq", "old": None, "place": "loop", "obs": [f"Weird({rng.randint(0, 9)})"], "sig": "weird"})
+        sites.append({"id": n + 1, "op": "eq", "old": None, "place": "loop", "obs": [f"outsource({'payload %d' % rng.randint(0, 99)!r})"], "sig": "ext"})
+        hname, header = REAL_HEADERS[(args.shard + c) % len(REAL_HEADERS)]
+        out["counters"]["real_header_" + hname] = out["counters"].get("real_header_" + hname, 0) + 1
+        src, order = program.build(sites, style="assert", tests=rng.randint(2, 4), header=header)
         proj = session.Project({"test_a.py": src})
         try:
             r1 = session.run_session(proj, ["--inline-snapshot=create"])
